@@ -400,10 +400,10 @@ spif_objpair_comp(spif_objpair_t self, spif_obj_t other)
 {
     SPIF_OBJ_COMP_CHECK_NULL(self, other);
     if (SPIF_OBJ_IS_OBJPAIR(other)) {
-        return SPIF_OBJ_COMP(self->key, SPIF_OBJPAIR(other)->key);
-    } else {
-        return SPIF_OBJ_COMP(self->key, other);
+        other = SPIF_OBJPAIR(other)->key;
     }
+    SPIF_OBJ_COMP_CHECK_NULL(self->key, other);
+    return SPIF_OBJ_COMP(self->key, other);
 }
 
 /**
